@@ -386,7 +386,16 @@ pub fn run(tier: Tier) -> i32 {
         let wide = format!("pragma solidity 0.8.19;\ncontract P {{\n  uint256 x;\n  function f(uint256 a) public {{\n{}  }}\n}}\n", "    x = a + 1;\n".repeat(6000));
         let chain = format!("pragma solidity 0.8.19;\ncontract P {{\n  function f(uint256 a) public returns (uint256) {{\n    return {};\n  }}\n}}\n", vec!["a"; 2000].join(" + "));
         let rejected = "pragma solidity 0.8.19;\ncontract P { function f( { ) } ".to_string();
-        let poisons: Vec<(&str, String)> = vec![("nested-1100-with-1300-arguments", deep), ("6000-statements", wide), ("2000-term-chain", chain), ("rejected-by-the-parser", rejected)];
+        // a predecessor that DECLARES things by name (value types, a library, constants): what it declares belongs to it alone
+        let declares = "pragma solidity 0.8.19;\ntype Price is uint128;\ntype Qty is uint64;\nuint256 constant total = 1;\nlibrary SafeMath { function add(uint256 a, uint256 b) internal pure returns (uint256) { return a + b; } }\n".to_string();
+        let poisons: Vec<(&str, String)> = vec![("nested-1100-with-1300-arguments", deep), ("6000-statements", wide), ("2000-term-chain", chain), ("rejected-by-the-parser", rejected), ("declares-value-types-constants-and-a-library", declares)];
+        // two more files, outside the alphabet of the histories: one that USES names another file may declare, and one whose
+        // verdicts need several passes over a name-keyed table (a chain of initialisers); their baseline is the first call on a
+        // fresh thread, and every later call — after any predecessor, and twenty times in a row — must repeat it
+        let extras: Vec<(&str, String)> = vec![
+            ("uses-value-types-by-name", "pragma solidity 0.8.19;\nstruct Order { Price bid; uint256 amount; Price ask; }\ncontract Book {\n  Qty a; uint256 b; Qty c;\n  uint256 total;\n  function f(uint256 x) public payable { total = x.add(1); }\n}\n".to_string()),
+            ("chain-of-initialisers", "pragma solidity 0.8.19;\ncontract Chain {\n  uint256 a;\n  uint256 b = a + 1;\n  uint256 c = b + 1;\n  uint256 d = c + 1;\n  uint256 e = d + 1;\n  uint256 lone = 5;\n  function w(uint256 v) public payable { a = v; }\n}\n".to_string()),
+        ];
         let fs2 = &fs;
         let det2 = &detectors;
         let r0b = &r0;
@@ -395,12 +404,44 @@ pub fn run(tier: Tier) -> i32 {
                 .stack_size(1usize << 30)
                 .spawn_scoped(sc, move || {
                     let mut vs = Vec::new();
+                    // baselines of the extra files: each (file, detector) on a thread of its own
+                    let mut xbase: Vec<Vec<Result<Lines, String>>> = Vec::new();
+                    for (_, xt) in &extras {
+                        let mut row = Vec::new();
+                        for d in det2.iter() {
+                            let (xt2, d2) = (xt.clone(), d.clone());
+                            row.push(std::thread::spawn(move || dets::run_guarded(&d2, &xt2, 0)).join().unwrap_or_else(|_| Err("thread panicked".into())));
+                        }
+                        xbase.push(row);
+                    }
+                    let mut check_extras = |after: &str, vs: &mut Vec<Violation>| {
+                        for (xi, (xn, xt)) in extras.iter().enumerate() {
+                            for (di, d) in det2.iter().enumerate() {
+                                let r = dets::run_guarded(d, xt, 0);
+                                if r != xbase[xi][di] {
+                                    vs.push(Violation {
+                                        site: format!("sequence:{}:verdict-differs-from-the-first-call-on-a-fresh-thread", d.name),
+                                        input: format!("file '{}' analysed {}", xn, after),
+                                        expected: format!("{:?}", xbase[xi][di]),
+                                        observed: format!("{:?}", r),
+                                        size: 3,
+                                        unit_test: String::new(),
+                                        extra: json!({"file": xt}),
+                                    });
+                                }
+                            }
+                        }
+                    };
+                    for k in 0..20 {
+                        check_extras(&format!("again on one thread (repetition {})", k + 1), &mut vs);
+                    }
                     for (pn, ptext) in &poisons {
                         let t0 = std::time::Instant::now();
                         for d in det2.iter() {
                             let _ = dets::run_guarded(d, ptext, 0);
                         }
                         eprintln!("[C15 phase] extreme predecessor '{}': {:.1}s", pn, t0.elapsed().as_secs_f64());
+                        check_extras(&format!("on the same thread after every detector ran on a source of kind '{}'", pn), &mut vs);
                         for f in 0..fs2.len() {
                             for d in 0..det2.len() {
                                 let c = Call { f, d, fileno: 0 };
@@ -425,7 +466,7 @@ pub fn run(tier: Tier) -> i32 {
                 .join()
                 .unwrap_or_default()
         });
-        dir_states += (4 * (detectors.len() + fs.len() * detectors.len())) as u64;
+        dir_states += (5 * (detectors.len() + fs.len() * detectors.len()) + 25 * 2 * detectors.len()) as u64;
         run.merge_violations(found);
     }
 
